@@ -40,7 +40,9 @@ EFL = B.ics("efl", "floating", extra="DTEND:20200410T110000", dtstart="20200410T
 # a one-day DURATION across the Europe/Paris spring transition: 28 March 12:00 + P1D = 29 March 12:00 local = 10:00 UTC (23 hours)
 EDST = ("BEGIN:VCALENDAR\r\nVERSION:2.0\r\nPRODID:-//xv//EN\r\n" + B.TZ_BLOCK + "\r\nBEGIN:VEVENT\r\nUID:edst\r\nDTSTAMP:20200101T000000Z\r\n"
         "DTSTART;TZID=Europe/Paris:20200328T120000\r\nDURATION:P1D\r\nSUMMARY:dst\r\nEND:VEVENT\r\nEND:VCALENDAR\r\n").encode()
-BODIES = {"EDST": EDST, "E1": E1, "E2": E2, "E3": E3, "T1": T1, "ETZ": ETZ, "FB2": FB2, "EF": EFALSY, "EFL": EFL}
+# one recurring VEVENT (a single component: the per-resource index weakness does not apply)
+ER = B.ics("er", "recurring", extra="DTEND:20200106T110000Z\nRRULE:FREQ=WEEKLY;COUNT=4", dtstart="20200106T100000Z")
+BODIES = {"EDST": EDST, "ER": ER, "E1": E1, "E2": E2, "E3": E3, "T1": T1, "ETZ": ETZ, "FB2": FB2, "EF": EFALSY, "EFL": EFL}
 
 
 def cf(name, inner=""):
@@ -76,6 +78,8 @@ FILTERS = {
     "float-range@tokyo-miss": (cf("VCALENDAR", cf("VEVENT", tr("20200410T100000Z", "20200410T110000Z"))), "Asia/Tokyo"),
     # starts exactly when the 23-hour "day" of EDST ends (10:00 UTC on 29 March)
     "range-after-dst-day": cf("VCALENDAR", cf("VEVENT", tr("20200329T100000Z", "20200329T140000Z"))),
+    "rrule-defined": cf("VCALENDAR", cf("VEVENT", pf("RRULE"))),
+    "rrule-not-defined": cf("VCALENDAR", cf("VEVENT", pf("RRULE", "<C:is-not-defined/>"))),
     "freebusy-range": cf("VCALENDAR", cf("VFREEBUSY", tr("20200311T000000Z", "20200312T000000Z"))),
 }
 
@@ -93,7 +97,7 @@ def seed_unparseable(root):
 
 
 class C10Cfg:
-    def __init__(self, threshold, seed_bad=False, filters=None, bodies=("E1", "E2", "T1"), front="wsgi", paranoid=False, second_writer=False):
+    def __init__(self, threshold, seed_bad=False, filters=None, bodies=("E1", "E2", "T1"), front="wsgi", paranoid=False, second_writer=False, expand=False):
         self.threshold = threshold
         self.seed_bad = seed_bad
         self.filters = filters or list(FILTERS)
@@ -102,6 +106,7 @@ class C10Cfg:
         self.paranoid = paranoid
         # a second worker (own store cache, hence its own index) on the same directory also writes
         self.second_writer = second_writer
+        self.expand = expand
         self.label = "threshold=%s%s%s%s/%s" % (threshold, "+unparseable" if seed_bad else "", "+paranoid" if paranoid else "", "+second-writer" if second_writer else "", front)
 
     def make(self):
@@ -165,13 +170,13 @@ class C10Sys:
 
     def key(self):
         fp = self.world.fingerprint()
-        m = tuple(sorted(self.model.items()))
+        m = tuple(sorted(self.model.items())) + (("@expanded-view-requested", getattr(self, "xflag", 0)),)
         return (m, hashlib.sha1(fp.encode("utf-8", "replace")).hexdigest())
 
     def enabled_ops(self):
         ops = []
         for b in self.cfg.bodies:
-            nm = {"T1": "t.ics", "E3": "c.ics", "ETZ": "z.ics", "FB2": "f.ics", "EF": "e.ics", "EFL": "l.ics", "EDST": "d.ics"}.get(b, "a.ics")
+            nm = {"T1": "t.ics", "E3": "c.ics", "ETZ": "z.ics", "FB2": "f.ics", "EF": "e.ics", "EFL": "l.ics", "EDST": "d.ics", "ER": "r.ics"}.get(b, "a.ics")
             ops.append(("put", nm, b))
         for nm in sorted(self.model):
             ops.append(("delete", nm))
@@ -180,6 +185,9 @@ class C10Sys:
         for f in self.cfg.filters:
             ops.append(("q", f))
             ops.append(("qq", f))
+        if self.cfg.expand:
+            # a "week view": all VEVENTs with calendar-data expanded over a range (recurrences rendered as instances)
+            ops.append(("qx", "vevent"))
         return ops
 
     def replay(self, hist):
@@ -234,6 +242,15 @@ class C10Sys:
             if r.status == 204:
                 self.model.pop(nm, None)
                 info["success"] = True
+        elif kind == "qx":
+            _, f = op
+            xbody = ('<?xml version="1.0" encoding="utf-8"?><C:calendar-query xmlns:D="DAV:" xmlns:C="%s"><D:prop><D:getetag/><C:calendar-data><C:expand start="20200101T000000Z" end="20200401T000000Z"/></C:calendar-data></D:prop>'
+                     '<C:filter>%s</C:filter></C:calendar-query>' % (dav.CAL, FILTERS[f])).encode()
+            r = self.world.request("REPORT", self.base, dict(dav.XML_CT, Depth="1"), xbody)
+            self.nreq += 1
+            info["outcome"] = "qx:%s" % r.status
+            # (rendering an answer must not change what later queries see; the answer itself is not judged here)
+            self.xflag = 1
         elif kind in ("q", "qq"):
             _, f = op
             n = 1 if kind == "q" else (self.cfg.threshold if self.cfg.threshold is not None else 5) + 2
@@ -275,7 +292,8 @@ def run(tier, workers=None):
                 C10Cfg(1, filters=["location-defined", "priority-defined", "location-not-defined"], bodies=("EF", "E1")),
                 C10Cfg(0, filters=["float-range-utc", "float-range@tokyo-hit", "float-range@tokyo-miss"], bodies=("EFL", "E1")),
                 C10Cfg(0, filters=["summary=alpha", "range-jan"], bodies=("E1", "E3"), second_writer=True),
-                C10Cfg(0, filters=["range-after-dst-day", "vevent"], bodies=("EDST",))]
+                C10Cfg(0, filters=["range-after-dst-day", "vevent"], bodies=("EDST",)),
+                C10Cfg(1, filters=["rrule-defined", "rrule-not-defined"], bodies=("ER", "E1"), expand=True)]
         depth = {0: 3, 1: 3}
     else:
         cfgs = [C10Cfg(0), C10Cfg(1), C10Cfg(2, filters=["vevent", "summary=beta", "range-feb", "todo-not-completed"]),
@@ -285,7 +303,8 @@ def run(tier, workers=None):
                 C10Cfg(0, filters=["location-defined", "priority-defined", "location-not-defined", "vevent"], bodies=("EF", "E1", "E2")),
                 C10Cfg(1, filters=["float-range-utc", "float-range@tokyo-hit", "float-range@tokyo-miss", "vevent"], bodies=("EFL", "E1", "ETZ")),
                 C10Cfg(1, filters=["summary=alpha", "range-jan", "vevent"], bodies=("E1", "E3", "T1"), second_writer=True),
-                C10Cfg(1, filters=["range-after-dst-day", "vevent"], bodies=("EDST", "E1"))]
+                C10Cfg(1, filters=["range-after-dst-day", "vevent"], bodies=("EDST", "E1")),
+                C10Cfg(0, filters=["rrule-defined", "rrule-not-defined", "range-feb"], bodies=("ER", "E1"), expand=True)]
         depth = {}
     tot = {"states": 0, "transitions": 0, "replays": 0, "requests": 0}
     per_cfg = []
@@ -296,7 +315,7 @@ def run(tier, workers=None):
         d = 3 if tier == "quick" else 4
         # non-initial start states: an object that was indexed, then removed (or replaced) while the index stayed in use -
         # from there the same bytes coming back is one step away
-        nm0 = {"T1": "t.ics", "E3": "c.ics", "ETZ": "z.ics", "FB2": "f.ics", "EF": "e.ics", "EFL": "l.ics", "EDST": "d.ics"}.get(cfg.bodies[0], "a.ics")
+        nm0 = {"T1": "t.ics", "E3": "c.ics", "ETZ": "z.ics", "FB2": "f.ics", "EF": "e.ics", "EFL": "l.ics", "EDST": "d.ics", "ER": "r.ics"}.get(cfg.bodies[0], "a.ics")
         f0 = cfg.filters[0]
         seeds = [[("put", nm0, cfg.bodies[0]), ("qq", f0), ("delete", nm0), ("q", f0)]]
         if len(cfg.bodies) > 1 and {"T1": "t.ics", "E3": "c.ics", "ETZ": "z.ics", "FB2": "f.ics", "EF": "e.ics", "EFL": "l.ics"}.get(cfg.bodies[1], "a.ics") == nm0:
